@@ -15,7 +15,12 @@ static void parse_case(const unsigned char *src, int len, const char *ev)
 	char *s = malloc(len + 1);            /* exactly sized: reading past the NUL is an ASan report */
 	memcpy(s, src, len);
 	s[len] = 0;
+	/* what the caller's cursor holds before the first call is the caller's business: junk, NULL, the text itself (the
+	 * hex_get_byte(s, &s) idiom), the middle of the text, another string */
+	static unsigned pmode;
+	static const char other[] = "77:88 99";
 	const char *p = (const char *)0x1;
+	switch (pmode++ % 5) { case 1: p = NULL; break; case 2: p = s; break; case 3: p = s + len / 2; break; case 4: p = other; break; }
 	static int rets[70000], curs[70000]; int n = 0;
 	int r = hex_get_byte(s, &p);
 	for (;;) {
@@ -52,7 +57,10 @@ static void strings(int maxlen)
 }
 static void dump_case(const unsigned char *b, int n)
 {
-	unsigned char *exact = malloc(n ? n : 1);
+	/* the array ends where its heap block ends and starts at every alignment (0..3 mod 4) in turn */
+	static unsigned amode;
+	int off = amode++ % 4;
+	unsigned char *block = malloc(n + off ? n + off : 1), *exact = block + off;
 	memcpy(exact, b, n);
 	char *out = NULL;
 	size_t outlen = 0;
@@ -64,7 +72,7 @@ static void dump_case(const unsigned char *b, int n)
 	for (int i = 0; i < n; i++) printf("%s%u", i ? "," : "", b[i]);
 	printf("]}\n");
 	free(out);
-	free(exact);
+	free(block);
 }
 /* two parse sessions interleaved call by call (the cursor lives in the caller's *p; nothing else may be remembered) */
 static void two_sessions(const unsigned char *a, int la, const unsigned char *b, int lb)
@@ -94,7 +102,8 @@ static void two_sessions(const unsigned char *a, int la, const unsigned char *b,
  * specification checks the tallies and that the text parses back to the same bytes */
 static void big_dump(int n)
 {
-	unsigned char *b = malloc(n ? n : 1);
+	int off = (n / 3) % 4;
+	unsigned char *block = malloc(n + off ? n + off : 1), *b = block + off;     /* every alignment of the first byte */
 	for (int i = 0; i < n; i++) b[i] = (unsigned char)(i * 131 + (i >> 8));
 	char *out = NULL; size_t outlen = 0;
 	FILE *f = open_memstream(&out, &outlen);
@@ -119,7 +128,7 @@ static void big_dump(int n)
 		if (back && r != -1) back = 0;
 	}
 	printf("{\"e\":\"BigDump\",\"n\":%d,\"ret\":%d,\"outlen\":%zu,\"shape\":%d,\"back\":%d}\n", n, ret, outlen, shape, back);
-	free(out); free(b);
+	free(out); free(block);
 }
 
 int main(void)
